@@ -14,6 +14,7 @@ import (
 const (
 	appConfigDir  = "ps3netsrv-go"
 	appConfigFile = "config.ini"
+	configFileEnv = "PS3NETSRV_CONFIG_FILE"
 )
 
 var (
@@ -59,6 +60,13 @@ func configLocations() []string {
 	}
 
 	ret = append(ret, appConfigFile) // search in current workdir
+
+	// kong.ConfigFlag is handled only when flag is provided in command line, so handle environment variable here
+	// (last location has the highest priority)
+	if fromEnv := os.Getenv(configFileEnv); fromEnv != "" {
+		ret = append(ret, fromEnv)
+	}
+
 	return ret
 }
 
